@@ -4,6 +4,7 @@ package c19
 import (
 	"fmt"
 	"net/netip"
+	"sort"
 	"strings"
 
 	"verif/props/proto"
@@ -148,6 +149,21 @@ func gen(tier string) []proto.RTItem {
 			items = append(items, proto.RTItem{Scn: r, Class: fmt.Sprintf("cli/strings/protocol=%q,method=%q", pr, m)})
 		}
 	}
+	// (G) requests that ask for runs AND end-to-end probes: each kind of run keeps its own TTL range
+	for _, k := range ks {
+		for _, entry := range []string{"RunTraceroute", "http", "cli"} {
+			if entry != "RunTraceroute" && strings.Contains(k.target, ":") && tier != "thorough" {
+				continue
+			}
+			r := req(k, 1, 5, 33434, 3)
+			r.Queries, r.E2e = 2, 2
+			r.HTTP, r.CLI = entry == "http", entry == "cli"
+			if r.CLI {
+				r.DelayMs = 50
+			}
+			items = append(items, proto.RTItem{Scn: r, Class: fmt.Sprintf("%s/%s-%s/runs-and-e2e-probes", entry, k.proto, k.method)})
+		}
+	}
 	for _, m := range methodVals {
 		r := req(kind{"tcp", m, "203.0.113.77"}, 1, 3, 33434, 3)
 		if m == "sack" || m == "prefer_sack" {
@@ -237,9 +253,25 @@ func check(it *proto.RTItem, r *proto.RTResult) []proto.Issue {
 		}
 		return []proto.Issue{{Key: "success-without-probes", Detail: r.Summary()}}
 	}
-	for sid, ps := range probes {
+	// end-to-end probes are runs of a single probe at the last TTL: up to E2e such runs are judged as probes, the others as
+	// the regular runs the request asked for (which start at the first TTL)
+	e2eLeft, nE2e, nRuns := sc.E2e, 0, 0
+	var sids []int
+	for sid := range probes {
+		sids = append(sids, sid)
+	}
+	sort.Ints(sids)
+	for _, sid := range sids {
+		ps := probes[sid]
+		isE2e := e2eLeft > 0 && len(ps) == 1 && int(ps[0].TTL) == sc.MaxTTL && sc.MinTTL != sc.MaxTTL
+		if isE2e {
+			e2eLeft--
+			nE2e++
+		} else {
+			nRuns++
+		}
 		for k, p := range ps {
-			if int(p.TTL) != sc.MinTTL+k {
+			if !isE2e && int(p.TTL) != sc.MinTTL+k {
 				out = append(out, proto.Issue{Key: "ttl-range-not-honoured", Detail: fmt.Sprintf("run %d: probe #%d has TTL %d, requested range %d..%d", sid, k, p.TTL, sc.MinTTL, sc.MaxTTL)})
 				break
 			}
@@ -266,7 +298,11 @@ func check(it *proto.RTItem, r *proto.RTResult) []proto.Issue {
 			}
 			if sc.Protocol == "tcp" {
 				syn := p.Flags&refcodec.SYN != 0
-				switch sc.Method {
+				m := sc.Method
+				if isE2e {
+					m = "syn" // end-to-end probes are always SYN probes
+				}
+				switch m {
 				case "", "syn":
 					if !syn {
 						out = append(out, proto.Issue{Key: "wrong-method", Detail: "non-SYN probe with method syn"})
@@ -277,6 +313,9 @@ func check(it *proto.RTItem, r *proto.RTResult) []proto.Issue {
 					}
 				}
 			}
+		}
+		if isE2e {
+			continue
 		}
 		last := sc.MinTTL + len(ps) - 1
 		if last > sc.MaxTTL {
@@ -289,6 +328,11 @@ func check(it *proto.RTItem, r *proto.RTResult) []proto.Issue {
 			if !stopOK {
 				out = append(out, proto.Issue{Key: "ttl-range-not-covered", Detail: fmt.Sprintf("run %d probed TTLs %d..%d, requested %d..%d (destination answers from TTL %d)", sid, sc.MinTTL, last, sc.MinTTL, sc.MaxTTL, sc.Dest)})
 			}
+		}
+	}
+	if r.Err == nil && sc.MinTTL != sc.MaxTTL && (sc.Queries > 0 || sc.E2e > 0) && sc.E2e > 0 {
+		if nRuns != sc.Queries || nE2e != sc.E2e {
+			out = append(out, proto.Issue{Key: "runs-and-probes-not-as-requested", Detail: fmt.Sprintf("%d runs starting at the first TTL and %d single probes at the last TTL on the wire; requested %d and %d", nRuns, nE2e, sc.Queries, sc.E2e)})
 		}
 	}
 	return out
